@@ -1227,7 +1227,22 @@ func (m *Dot11) ChecksumValid() bool {
 }
 
 func (m Dot11) SerializeTo(b gopacket.SerializeBuffer, opts gopacket.SerializeOptions) error {
-	buf, err := b.PrependBytes(24)
+	// the header is as long as the fields written below: 10 octets for the
+	// shortest control frames, 30 for a data frame with four addresses
+	length := 10
+	switch m.Type.MainType() {
+	case Dot11TypeCtrl:
+		switch m.Type {
+		case Dot11TypeCtrlRTS, Dot11TypeCtrlPowersavePoll, Dot11TypeCtrlCFEnd, Dot11TypeCtrlCFEndAck:
+			length += 6
+		}
+	case Dot11TypeMgmt, Dot11TypeData:
+		length += 14
+	}
+	if m.Type.MainType() == Dot11TypeData && m.Flags.FromDS() && m.Flags.ToDS() {
+		length += 6
+	}
+	buf, err := b.PrependBytes(length)
 
 	if err != nil {
 		return err
